@@ -195,8 +195,18 @@ func (g *Gen) vecQueries(seg string, handlePrefix string) {
 	nd := g.ndocs[seg]
 	for _, f := range []string{"vecA", "vecB", "novec", "body"} {
 		dim := 2
+		// the order of the handles matters: whichever comes first fills the segment's cache
+		type combo struct{ ex, filt string }
+		var combos []combo
 		for _, ex := range g.exclusions(min(nd, 4)) {
 			for _, filt := range []string{"0", "1"} {
+				combos = append(combos, combo{ex, filt})
+			}
+		}
+		g.r.Shuffle(len(combos), func(i, j int) { combos[i], combos[j] = combos[j], combos[i] })
+		for _, cb := range combos {
+			ex, filt := cb.ex, cb.filt
+			{
 				h := g.fresh(handlePrefix)
 				g.emit("vopen %s %s %s filt=%s ex=%s", h, seg, f, filt, ex)
 				for _, k := range []int{0, 1, 2, nd, nd + 3} {
@@ -209,7 +219,11 @@ func (g *Gen) vecQueries(seg string, handlePrefix string) {
 					}
 				}
 				if g.chance(0.3) {
-					g.emit("vsearch %s q=%s k=2", h, g.randQuery(dim+1)) // wrong dimension
+					// wrong dimension: one more, one less, whole multiples
+					g.emit("vsearch %s q=%s k=2", h, g.randQuery([]int{dim + 1, dim - 1, 2 * dim, 3 * dim}[g.r.Intn(4)]))
+					if filt == "1" {
+						g.emit("vsearch %s q=%s k=2 elig=%s", h, g.randQuery(2*dim), g.liveSubset(nd, ex, 1))
+					}
 				}
 				g.emit("vclose %s", h)
 				g.st("vec.handle")
@@ -344,6 +358,11 @@ func (g *Gen) genC15(n int) error {
 		g.emit("vreset")
 		if i%20 == 7 {
 			g.bigVecMerge()
+			continue
+		}
+		if i%10 == 4 {
+			g.engFaultMergeCase()
+			g.st("case")
 			continue
 		}
 		depth := 1 + g.r.Intn(3)
@@ -528,7 +547,20 @@ func (g *Gen) bigFrozenCase(mode int) {
 		if d%2 == 0 {
 			toks = append(toks, TokSpec{Term: []byte("even"), Freq: 1})
 		}
+		// the last term of this field is in every document, the first term of the next field (the
+		// empty term) in few: neighbours in the file on opposite sides of 1024 hits
+		toks = append(toks, TokSpec{Term: []byte("zzz"), Freq: 1})
 		doc.Fields = append(doc.Fields, FieldSpec{Kind: "fld", Name: "body", Typ: 't', Len: 2 + d%4, DV: true, Toks: toks})
+		var tags []TokSpec
+		if d%30 == 0 {
+			tags = append(tags, TokSpec{Term: []byte{}, Freq: 2, Locs: []LocSpec{{Pos: 1, Start: d, End: d}, {Pos: 2, Start: d + 1, End: d + 1}}})
+		}
+		if d%2 == 1 {
+			tags = append(tags, TokSpec{Term: []byte("t1"), Freq: 1})
+		}
+		if len(tags) > 0 {
+			doc.Fields = append(doc.Fields, FieldSpec{Kind: "fld", Name: "tag", Typ: 't', Len: len(tags), DV: d%4 == 0, Toks: tags})
+		}
 		b.Docs = append(b.Docs, doc)
 	}
 	g.emitBatch(b)
@@ -564,15 +596,18 @@ func (g *Gen) bigFrozenCase(mode int) {
 	}
 	g.emit("q post %s body %s ex=%s fl=111 ops=%s", o, hx([]byte("common")), intList(pre), g.nexts(nd-len(pre)+1))
 	g.emit("q dict %s body aut=all lo=* hi=* probe=-", o)
+	g.emit("q dict %s tag aut=all lo=* hi=* probe=.", o)
+	g.emit("q post %s tag . ex=nil fl=111 ops=%s", o, g.nexts(nd/30+2))
+	g.emit("q post %s tag . ex=%s fl=111 ops=%s", o, intList(few), g.nexts(nd/30+2))
 	st := g.fresh("st")
 	for _, d := range []int{0, 1, 1023, 1024, 1025, nd - 1, 512, 1030, 3} {
-		g.emit("q dv %s %s fields=body,_id doc=%d", o, st, d)
+		g.emit("q dv %s %s fields=body,_id,tag doc=%d", o, st, d)
 		g.emit("q stored %s %d stop=*", o, d)
 		g.emit("q docid %s %d", o, d)
 	}
 	g.emit("q docnums %s ids=%s", o, hxList([][]byte{b.Docs[0].ID, b.Docs[1024].ID, b.Docs[nd-1].ID, []byte("absent-id")}))
 	// the same exclusions as deletions of a merge; the merged file is read back
-	for _, dr := range [][]int{pre, third} {
+	for _, dr := range [][]int{pre, third, few} {
 		mf := g.fresh("f")
 		g.emit("merge %s segs=%s drops=%s", mf, o, intList(dr))
 		m := g.fresh("m")
@@ -583,7 +618,11 @@ func (g *Gen) bigFrozenCase(mode int) {
 			g.emit("q post %s body %s ex=nil fl=111 ops=N,N,A%d,%s,A%d,N,N,N", m, hx([]byte(term)), total/2, tail, total-3)
 			g.emit("q post %s body %s ex=nil fl=000 ops=%s", m, hx([]byte(term)), g.nexts(total+1))
 		}
-		g.emit("q dv %s - fields=body doc=%d", m, total-1)
+		g.emit("q post %s tag . ex=nil fl=111 ops=%s", m, g.nexts(nd/30+2))
+		g.emit("q post %s tag %s ex=nil fl=111 ops=N,N,A%d,N,N,N", m, hx([]byte("t1")), total/2)
+		g.emit("q post %s body %s ex=nil fl=100 ops=N,A%d,N,N,A%d,N,N", m, hx([]byte("zzz")), total/2, total-2)
+		g.emit("q dict %s tag aut=all lo=* hi=* probe=.", m)
+		g.emit("q dv %s - fields=body,tag doc=%d", m, total-1)
 		g.emit("q docid %s %d", m, total-1)
 		g.emit("close %s", m)
 	}
@@ -602,4 +641,50 @@ func countVecs(b *BatchSpec, fn string) int {
 		}
 	}
 	return n
+}
+
+// engFaultMergeCase: a two-input vector merge repeated with the n-th call of every engine operation
+// failing: whatever the engine does, a merge that reports success holds exactly the survivors' vectors.
+func (g *Gen) engFaultMergeCase() {
+	g.setMode()
+	var segs []string
+	for k := 0; k < 2; k++ {
+		cfg := g.vecCfg()
+		cfg.minDocs = 2
+		cfg.vecAll = true
+		b := g.randBatch(g.fresh("b"), cfg)
+		g.emitBatch(b)
+		s := g.fresh("s")
+		g.emit("build %s %s", s, b.Name)
+		g.newBuilt(s, b)
+		segs = append(segs, s)
+	}
+	mf := g.fresh("f")
+	d1, d2 := g.randDrops(g.ndocs[segs[0]]), g.randDrops(g.ndocs[segs[1]])
+	if dropCount(d1) == g.ndocs[segs[0]] {
+		d1 = "nil"
+	}
+	g.emit("mergeengfaults %s segs=%s drops=%s|%s", mf, strList(segs), d1, d2)
+	m := g.fresh("m")
+	g.emit("open %s %s", m, mf)
+	u := newUniverse()
+	u.union(g.univ[segs[0]], 0)
+	u.union(g.univ[segs[1]], 0)
+	g.univ[m] = u
+	g.ndocs[m] = g.ndocs[segs[0]] + g.ndocs[segs[1]] - dropCount(d1) - dropCount(d2)
+	g.emit("vstats %s", m)
+	g.emit("q count %s", m)
+	for _, fn := range []string{"vecA", "vecB"} {
+		h := g.fresh("h")
+		g.emit("vopen %s %s %s filt=0 ex=nil", h, m, fn)
+		g.emit("vsearch %s q=%s k=%d", h, g.randQuery(2), g.ndocs[m]*4+1)
+		g.emit("vsearch %s q=%s k=2", h, g.randQuery(2))
+		g.emit("vclose %s", h)
+	}
+	g.emit("close %s", m)
+	for _, s := range segs {
+		g.emit("close %s", s)
+	}
+	g.emit("vcounters")
+	g.st("vec.engfaultmerge")
 }
